@@ -1,6 +1,6 @@
 (* Props/C05.v — C05: packet routing follows the latest valid PAT and PMTs. *)
 From TS Require Import Base.Res Model.Timestamp Model.Packet Model.Tables Model.PesFilter Model.Crc Model.Psi Model.Demux Model.DemuxObs
-  Spec.Dispatch Proofs.DispatchProofs Proofs.TableProofs Proofs.Witnesses.
+  Spec.TablesSpec Spec.Dispatch Proofs.SectionProofs Proofs.DispatchProofs Proofs.TableProofs Proofs.TotalityProofs Proofs.RoutingProofs Proofs.Witnesses.
 Open Scope N_scope.
 
 (* applying a PAT: one request per entry in table order (Pmt{pid, program_number} / Nit{pid}), each answer
@@ -31,6 +31,76 @@ Theorem C05_apply : forall cs fs, wf fs -> exists fs', apply_changes fs cs = Ok 
   forall p, filters_get fs' p = match last_change cs p with Some x => x | None => filters_get fs p end.
 Proof. exact apply_changes_spec. Qed.
 Print Assumptions C05_apply.
+
+(* ---- end to end, from the bytes of one transport packet to the handler table ----
+   One packet on a PMT PID (pointer_field 0) carrying a whole program-map section S with a correct CRC whose version
+   differs from the one remembered, dispatched by the real loop (C05_takes_effect) against ANY well-formed table [fs]
+   and ANY state [c] of that PID's section chain (whatever earlier transmissions left behind):
+   - every PID the new version lists is afterwards handled by the handler the application built from the request
+     naming that PID, its stream type and the owning program map (the last entry wins when a PID is listed twice);
+   - every PID the previous version of this map had installed and the new one drops has no handler any more;
+   - every other PID is untouched; the change is in force for the very next packet (the queue is empty again). *)
+Theorem C05_pmt_version_routes : forall policy scripts fs cx i pk P s (c : chain pmt_state) poff S rest v,
+  wf fs -> cx_changes cx = nil -> pkt_pid pk = Ok P -> filters_get fs P = Some (HPmt s c) -> unflagged pk ->
+  pkt_payload pk = Ok (Some (poff, 0 :: S ++ rest)) -> pkt_payload_unit_start_indicator pk = Ok true ->
+  intact_section S rest 2 v -> dd_last_version c <> Some v ->
+  reg_ok (pmt_registered (in_state c)) -> s_pmt_accept (sect_body S) = ROk (sect_body S) ->
+  let ps := in_state c in
+  let body := sect_body S in
+  let ss := pmt_streams_of body in
+  exists fs' c' ev,
+    spec_packet policy scripts false false fs cx (i, pk) =
+      Ok (fs', {| cx_changes := nil; cx_serial := cx_serial cx + N.of_nat (length ss) |}, ev) /\
+    wf fs' /\ dd_last_version c' = Some v /\
+    forall p,
+      let lst := existsb (fun d => p =? s_elementary_pid (si_data d)) ss in
+      (lst = true -> exists k st, nth_error ss k = Some st /\ s_elementary_pid (si_data st) = p /\
+         filters_get fs' p = Some (mk_handler (policy (RqByStream (pmt_pid ps) (s_stream_type (si_data st)) p (s_pcr_pid body :: nil)))
+                                              (cx_serial cx + N.of_nat k))) /\
+      (lst = false -> bs_mem p (pmt_registered ps) = true -> filters_get fs' p = None) /\
+      (lst = false -> bs_mem p (pmt_registered ps) = false -> filters_get fs' p = filters_get (set_slot fs P (Some (HPmt s c'))) p).
+Proof. exact pmt_version_routes. Qed.
+Print Assumptions C05_pmt_version_routes.
+
+(* the same for a PAT version: program-map PIDs requested with the announced program number, network entries as NIT PIDs *)
+Theorem C05_pat_version_routes : forall policy scripts fs cx i pk P s (c : chain pat_state) poff S rest v,
+  wf fs -> cx_changes cx = nil -> pkt_pid pk = Ok P -> filters_get fs P = Some (HPat s c) -> unflagged pk ->
+  pkt_payload pk = Ok (Some (poff, 0 :: S ++ rest)) -> pkt_payload_unit_start_indicator pk = Ok true ->
+  intact_section S rest 0 v -> dd_last_version c <> Some v ->
+  reg_ok (pat_registered (in_state c)) ->
+  let ps := in_state c in
+  let progs := s_pat (sect_body S) in
+  exists fs' c' ev,
+    spec_packet policy scripts false false fs cx (i, pk) =
+      Ok (fs', {| cx_changes := nil; cx_serial := cx_serial cx + N.of_nat (length progs) |}, ev) /\
+    wf fs' /\ dd_last_version c' = Some v /\
+    forall p,
+      let lst := existsb (fun d => p =? pd_pid d) progs in
+      (lst = true -> exists k d, nth_error progs k = Some d /\ pd_pid d = p /\
+         filters_get fs' p = Some (mk_handler (policy (req_of_pd d)) (cx_serial cx + N.of_nat k))) /\
+      (lst = false -> bs_mem p (pat_registered ps) = true -> filters_get fs' p = None) /\
+      (lst = false -> bs_mem p (pat_registered ps) = false -> filters_get fs' p = filters_get (set_slot fs P (Some (HPat s c'))) p).
+Proof. exact pat_version_routes. Qed.
+Print Assumptions C05_pat_version_routes.
+
+(* the hypotheses are met by the PMT packet of the F7 witness stream (second packet: PID 0x100, 26-byte section, version 0) *)
+Example C05_version_routes_nonvacuous :
+  let pk := firstn 188 (skipn 188 wit_F7) in
+  let S := firstn 26 (skipn 5 pk) in
+  let rest := skipn 31 pk in
+  pkt_pid pk = Ok 256 /\ unflagged pk /\ pkt_payload pk = Ok (Some (4%nat, 0 :: S ++ rest)) /\
+  pkt_payload_unit_start_indicator pk = Ok true /\ intact_section S rest 2 0 /\
+  s_pmt_accept (sect_body S) = ROk (sect_body S) /\ length (pmt_streams_of (sect_body S)) = 2%nat.
+Proof.
+  cbv zeta. split; [vm_compute; reflexivity|]. split.
+  { split; [vm_compute; reflexivity|]. eexists. split; vm_compute; reflexivity. }
+  split; [vm_compute; reflexivity|]. split; [vm_compute; reflexivity|]. split.
+  { unfold intact_section. split.
+    - apply Forall_forall. intros x Hx. apply N.ltb_lt.
+      revert x Hx. apply Forall_forall. vm_compute. repeat constructor.
+    - repeat split; try (vm_compute; reflexivity); apply PeanoNat.Nat.leb_le; vm_compute; reflexivity. }
+  split; vm_compute; reflexivity.
+Qed.
 
 (* KNOWN FINDING F7 (refutation witness): programs 1 and 2 both list elementary PID 0x300; a new version of
    PMT 1 drops it and thereby removes the handler program 2's PMT installed (serial 5): the next packet on
